@@ -26,6 +26,14 @@
 (* the cancelling case is the named action VerifyCancelling, whose verdict *)
 (* is the coded equation when AsCoded = TRUE and "reject" in the intended  *)
 (* design (AsCoded = FALSE).                                               *)
+(*                                                                         *)
+(* The signer schemes handed to Aggregate are long-lived OBJECTS (the      *)
+(* scheme of a client / node, chaincore/client): after a verification the  *)
+(* same objects can be re-keyed (SetPublicKey / ReadKeys: ReKey) and       *)
+(* aggregated again for the same messages and signatures, up to MaxPasses  *)
+(* verifications.  okey[i] is the key the object of position i pairs with; *)
+(* the design: it is the key the object was last given (ObjectsCurrent),   *)
+(* so every pass decides the scenario whose claims are the keys held then. *)
 (***************************************************************************)
 EXTENDS ToyGroup, TLC
 
@@ -38,7 +46,9 @@ CONSTANTS P,          \* prime modulus of the toy group
           Deltas,     \* additive errors                          (subset of 1..P-1)
           SameModes,  \* subset of BOOLEAN; TRUE: all signers sign one message (tickets)
           MaxTouched, \* at most this many positions are corrupted
-          AsCoded     \* TRUE: verdict of the cancelling case = the coded equation
+          AsCoded,    \* TRUE: verdict of the cancelling case = the coded equation
+          MaxPasses,  \* the same scheme objects are verified at most this many times
+          ReKeys      \* keys an object can be re-keyed with between two verifications
 
 Nil == -1
 
@@ -49,15 +59,18 @@ VARIABLES phase,            \* "signed" -> "agg" -> "done"
           bs,               \* batch size chosen by the verifier
           aSig, aGt,        \* per-batch accumulators (Nil = not yet written)
           done,             \* positions aggregated so far
-          verdict           \* "none" | "accept" | "reject"
+          verdict,          \* "none" | "accept" | "reject"
+          pass,             \* verifications started so far
+          okey              \* key held by the scheme object of each position (what PairMessageHash pairs with)
 
 scen == <<n, same, ck, cm, sk, sm, dl>>
-vars == <<phase, n, same, ck, cm, sk, sm, dl, touched, bs, aSig, aGt, done, verdict>>
+vars == <<phase, n, same, ck, cm, sk, sm, dl, touched, bs, aSig, aGt, done, verdict, pass, okey>>
 
 Pos == 1..n
 
 (* --- algebra of one scenario ------------------------------------------ *)
 Expected(i) == (ck[i] * cm[i]) % P                 \* exponent of e(H(cm_i), pk_i)
+Paired(i) == (okey[i] * cm[i]) % P                 \* what the object of position i contributes: e(H(cm_i), its key)
 Carried(i) == (sk[i] * sm[i] + dl[i]) % P          \* the signature travelling at position i
 Err(i) == M(Carried(i) - Expected(i), P)
 IndValid(i) == Ver(Carried(i), ck[i], cm[i], P)    \* what BLS0ChainScheme.Verify decides for position i
@@ -74,9 +87,10 @@ Init ==
   /\ same => \A i \in 1..n : cm[i] = cm[1]
   /\ sk = ck /\ sm = cm /\ dl = [i \in 1..n |-> 0]
   /\ touched = {} /\ bs = 0 /\ aSig = <<>> /\ aGt = <<>> /\ done = {} /\ verdict = "none"
+  /\ pass = 0 /\ okey = ck
 
 Untouched(i) == phase = "signed" /\ i \in Pos /\ i \notin touched /\ Cardinality(touched) < MaxTouched
-Keep == UNCHANGED <<phase, n, same, ck, cm, bs, aSig, aGt, done, verdict>>
+Keep == UNCHANGED <<phase, n, same, ck, cm, bs, aSig, aGt, done, verdict, pass, okey>>
 
 (* sigma_i + d *)
 CorruptDelta(i, d) ==
@@ -103,11 +117,20 @@ TakeOther(i, j) ==
 NumBatches(total, b) == IF (total \div b) * b < total THEN (total \div b) + 1 ELSE total \div b
 BatchOf(i) == ((i - 1) \div bs) + 1                \* idx / BatchSize, idx = i-1
 
+(* a fresh aggregate scheme over the same signer objects: the first verification, or one after re-keying *)
 StartVerify(b) ==
-  /\ phase = "signed" /\ b \in 1..MaxN
-  /\ phase' = "agg" /\ bs' = b
+  /\ phase \in {"signed", "rekeyed"} /\ b \in 1..MaxN /\ pass < MaxPasses
+  /\ phase' = "agg" /\ bs' = b /\ pass' = pass + 1 /\ done' = {} /\ verdict' = "none"
   /\ aSig' = [x \in 1..NumBatches(n, b) |-> Nil] /\ aGt' = [x \in 1..NumBatches(n, b) |-> Nil]
-  /\ UNCHANGED <<n, same, ck, cm, sk, sm, dl, touched, done, verdict>>
+  /\ UNCHANGED <<n, same, ck, cm, sk, sm, dl, touched, okey>>
+
+(* between two verifications the object of position i is given another key (SetPublicKey / ReadKeys): *)
+(* from then on the position claims key k; the signature it carries stays what it was                 *)
+ReKey(i, k) ==
+  /\ phase \in {"done", "rekeyed"} /\ pass < MaxPasses /\ i \in Pos /\ k \in ReKeys /\ k # ck[i]
+  /\ ck' = [ck EXCEPT ![i] = k] /\ okey' = [okey EXCEPT ![i] = k]
+  /\ phase' = "rekeyed" /\ verdict' = "none"
+  /\ UNCHANGED <<n, same, cm, sk, sm, dl, touched, bs, aSig, aGt, done, pass>>
 
 (* one call of Aggregate(ss, idx, sig, hash): inside a batch in index order (the code's loop), *)
 (* different batches interleave freely (one goroutine per batch in ValidateTransactions)       *)
@@ -116,14 +139,14 @@ Aggregate(i) ==
   /\ \A j \in Pos : (j < i /\ BatchOf(j) = BatchOf(i)) => j \in done
   /\ LET b == BatchOf(i) IN
        /\ aSig' = [aSig EXCEPT ![b] = IF @ = Nil THEN Carried(i) ELSE (@ + Carried(i)) % P]
-       /\ aGt' = [aGt EXCEPT ![b] = IF @ = Nil THEN Expected(i) ELSE (@ + Expected(i)) % P]
+       /\ aGt' = [aGt EXCEPT ![b] = IF @ = Nil THEN Paired(i) ELSE (@ + Paired(i)) % P]
   /\ done' = done \cup {i}
-  /\ UNCHANGED <<phase, n, same, ck, cm, sk, sm, dl, touched, bs, verdict>>
+  /\ UNCHANGED <<phase, n, same, ck, cm, sk, sm, dl, touched, bs, verdict, pass, okey>>
 
 (* Verify(): fold the batches into the first one, one pairing equation *)
 AggEq == SumSeq(aSig, 1, P) = SumSeq(aGt, 1, P)
 Finish(v) == /\ phase' = "done" /\ verdict' = (IF v THEN "accept" ELSE "reject")
-             /\ UNCHANGED <<n, same, ck, cm, sk, sm, dl, touched, bs, aSig, aGt, done>>
+             /\ UNCHANGED <<n, same, ck, cm, sk, sm, dl, touched, bs, aSig, aGt, done, pass, okey>>
 VerifyPlain == phase = "agg" /\ done = Pos /\ ~Cancelling /\ Finish(AggEq)
 (* the named deviation: individually invalid signatures whose errors cancel *)
 VerifyCancelling == phase = "agg" /\ done = Pos /\ Cancelling /\ Finish(IF AsCoded THEN AggEq ELSE FALSE)
@@ -133,6 +156,7 @@ Next == \/ \E i \in 1..MaxN : \/ \E d \in Deltas : CorruptDelta(i, d)
                               \/ \E m \in WrongMsgs : WrongMsg(i, m)
                               \/ \E j \in 1..MaxN : TakeOther(i, j)
                               \/ Aggregate(i)
+                              \/ \E k \in ReKeys : ReKey(i, k)
         \/ \E b \in 1..MaxN : StartVerify(b)
         \/ VerifyPlain \/ VerifyCancelling
 Spec == Init /\ [][Next]_vars
@@ -141,9 +165,11 @@ Spec == Init /\ [][Next]_vars
 Done == phase = "done"
 Accepts == verdict = "accept"
 
-TypeOK == /\ phase \in {"signed", "agg", "done"} /\ verdict \in {"none", "accept", "reject"}
+TypeOK == /\ phase \in {"signed", "agg", "done", "rekeyed"} /\ pass \in 0..MaxPasses /\ verdict \in {"none", "accept", "reject"}
           /\ \A i \in Pos : dl[i] \in 0..(P - 1)
           /\ (phase # "signed") => Len(aSig) = NumBatches(n, bs)
+(* the object of every position pairs with the key it was last given - in every pass *)
+ObjectsCurrent == okey = ck
 
 (* provable for the code as written *)
 Completeness == (Done /\ AllValid) => Accepts
